@@ -2,6 +2,7 @@ package queryer
 
 import (
 	"context"
+	"fmt"
 	"net/http"
 
 	"github.com/buildbuildio/pebbles/common"
@@ -149,6 +150,11 @@ func (q *MultiOpQueryer) queryBatch(inputs []*requests.Request) ([]map[string]in
 	resps, err := q.fetch(inputsToFetch)
 	if err != nil {
 		return nil, err
+	}
+
+	// the service must answer every request of the batch, and nothing else
+	if len(resps) != len(inputsToFetch) {
+		return nil, fmt.Errorf("expected %d responses from %s, got %d", len(inputsToFetch), q.url, len(resps))
 	}
 
 	// format the result as needed
